@@ -192,6 +192,91 @@ func boolTable(p *core.Prog, rel, name string) ([]constant.Value, token.Pos) {
 	return out, pos
 }
 
+// derivedBoolTables adds to tables the package-level `[N]bool` variables that the package initialiser fills from a
+// private function of the simplest kind: copy one of the known tables, overwrite entries at constant indices with
+// constants, return the copy (`var bare = func() [128]bool { t := safeSet; t[' '] = false; return t }()`).
+func derivedBoolTables(p *core.Prog, rel string, tables map[string][]constant.Value) {
+	sp := p.SPkgs[rel]
+	if sp == nil {
+		return
+	}
+	init := sp.Func("init")
+	if init == nil {
+		return
+	}
+	for round := 0; round < 2; round++ {
+		sx.Instrs(init, func(in ssa.Instruction) {
+			st, ok := in.(*ssa.Store)
+			if !ok {
+				return
+			}
+			g, ok := st.Addr.(*ssa.Global)
+			if !ok || tables[g.Name()] != nil {
+				return
+			}
+			call, ok := st.Val.(*ssa.Call)
+			if !ok {
+				return
+			}
+			f := sx.StaticCallee(call)
+			if f == nil || len(f.Blocks) != 1 || len(f.Params) != 0 {
+				return
+			}
+			state := map[*ssa.Alloc][]constant.Value{}
+			var result []constant.Value
+			okF := true
+			for _, i2 := range f.Blocks[0].Instrs {
+				switch x := i2.(type) {
+				case *ssa.Alloc, *ssa.DebugRef, *ssa.IndexAddr:
+				case *ssa.UnOp:
+					if x.Op != token.MUL {
+						okF = false
+					}
+				case *ssa.Store:
+					switch a := x.Addr.(type) {
+					case *ssa.Alloc:
+						ld, isLd := x.Val.(*ssa.UnOp)
+						if !isLd {
+							okF = false
+							break
+						}
+						src, isG := ld.X.(*ssa.Global)
+						if !isG || tables[src.Name()] == nil {
+							okF = false
+							break
+						}
+						state[a] = append([]constant.Value(nil), tables[src.Name()]...)
+					case *ssa.IndexAddr:
+						al, isA := a.X.(*ssa.Alloc)
+						k, isK := sx.ConstInt(a.Index)
+						c, isC := x.Val.(*ssa.Const)
+						if !isA || !isK || !isC || c.Value == nil || c.Value.Kind() != constant.Bool || state[al] == nil || k < 0 || k >= int64(len(state[al])) {
+							okF = false
+							break
+						}
+						state[al][k] = c.Value
+					default:
+						okF = false
+					}
+				case *ssa.Return:
+					if len(x.Results) == 1 {
+						if ld, isLd := x.Results[0].(*ssa.UnOp); isLd {
+							if al, isA := ld.X.(*ssa.Alloc); isA {
+								result = state[al]
+							}
+						}
+					}
+				default:
+					okF = false
+				}
+			}
+			if okF && result != nil {
+				tables[g.Name()] = result
+			}
+		})
+	}
+}
+
 func (e *peEnv) eval(v ssa.Value) (constant.Value, bool) {
 	if c, ok := e.vals[v]; ok {
 		return c, true
